@@ -11,6 +11,7 @@ import numpy as np
 
 from mc.core import Report, viol, collect_samples
 from mc.oracles.s2 import sphere_voronoi
+from mc.histories import explore_getter_orders
 
 from molgri.space.fullgrid import PositionGrid
 
@@ -137,6 +138,24 @@ def run_case(case):
     return {"violations": vs, "cells": n}
 
 
+PG_GETTERS = {"volumes": lambda pg: pg.get_all_position_volumes(),
+              "adjacency": lambda pg: pg.get_adjacency_of_position_grid(),
+              "borders": lambda pg: pg.get_borders_of_position_grid(),
+              "distances": lambda pg: pg.get_distances_of_position_grid()}
+
+
+def order_case(case):
+    """all getter words of length <= 3 on ONE PositionGrid instance: every observation must equal the first call on a
+    fresh object (a getter that squares a cached array in place, or fills a cache another getter reads, shows up here)"""
+    o, t = case["o"], case["t"]
+    bad, nwords, calls = explore_getter_orders(lambda: PositionGrid(o, t, position_grid_cartesian=False), PG_GETTERS, depth=3)
+    vs = []
+    for w, pos, g, exp, obs in bad[:3]:
+        vs.append(viol(f"C05|getter_order|{o}|t={t}|word={'>'.join(w[:pos + 1])}", f"{g} after {w[:pos]} on the same "
+                       "PositionGrid differs from the first call on a fresh object", dict(case, word=w), exp, obs))
+    return {"violations": vs, "cells": 0, "words": nwords, "calls": calls}
+
+
 def cases(tier):
     out = []
     if tier == "quick":
@@ -154,7 +173,10 @@ def run(ctx):
     rep = Report(PROPERTY, "exploration")
     cs = cases(ctx.tier)
     res = ctx.pmap(run_case, cs, chunksize=2, recheck=3)
-    for r in res:
+    ocs = [{"order": True, "o": o, "t": t} for o, t in (("ico_7", "[0.1, 0.25, 0.3]"), ("cube3D_5", "0.3"),
+                                                        ("randomS_9", "[0.3, 0.1, 0.25, 0.7]"))]
+    ores = ctx.pmap(order_case, ocs, chunksize=1, recheck=1)
+    for r in res + ores:
         rep.add_violations(r["violations"])
     rep.coverage = {
         "evaluations": sum(r["cells"] ** 2 for r in res),
@@ -163,6 +185,7 @@ def run(ctx):
                 "list/tuple/linspace/range syntax); every cell volume and every ordered pair (adjacency, border, distance) "
                 "against closed forms on the arc-clipping oracle; evaluations = ordered pairs compared",
         "samples": collect_samples([f"{c['alg']}_{c['N']} {c['t']}" for c in cs], 6),
+        "getter_order_words": sum(r["words"] for r in ores), "getter_order_calls": sum(r["calls"] for r in ores),
         "exhaustive": True, "bound": {"N": "4..45, 63, 64" if ctx.tier == "quick" else "4..64"},
     }
     rep.assumptions = ["relative tolerance 1e-7", "radii of the oracle come from exact rationals, not from the parser"]
@@ -170,4 +193,6 @@ def run(ctx):
 
 
 def replay(case):
+    if case.get("order"):
+        return order_case(case)["violations"]
     return run_case(case)["violations"]
